@@ -705,3 +705,64 @@ func VerifC13SelfTest() {
 	fmt.Printf("VERIF-SELFTEST runs=%d\n", runs)
 	verifPickOverride = nil
 }
+
+// verifConnReader: a connection whose segments are handed over by the harness one at a time; Read blocks
+// until the next segment arrives, a closed channel is the peer's clean end of stream.
+type verifConnReader struct {
+	ch  chan []byte
+	cur []byte
+}
+
+func (r *verifConnReader) Read(p []byte) (int, error) {
+	for len(r.cur) == 0 {
+		seg, ok := <-r.ch
+		if !ok {
+			return 0, io.EOF
+		}
+		r.cur = seg
+	}
+	k := copy(p, r.cur)
+	r.cur = r.cur[k:]
+	return k, nil
+}
+
+// VerifC13TwoConnections: one listener has ONE Pickle handler, and every accepted connection runs
+// Handle on it in its own goroutine (input/listener.go). Connection A's frame arrives in two segments
+// (cut anywhere: inside the length, right after it, inside the payload, one byte before its end); a whole
+// frame of connection B arrives in between, on the same handler. Both frames must be processed as
+// their own datapoints, and neither connection may end with an error.
+func VerifC13TwoConnections() {
+	nameA, nameB := verifString("nameA", 1), verifString("nameB", 1)
+	itemsA := []interface{}{ogorek.Tuple{nameA, ogorek.Tuple{int64(1), int64(2)}}}
+	itemsB := []interface{}{ogorek.Tuple{nameB, ogorek.Tuple{int64(3), int64(4)}}, ogorek.Tuple{nameB, ogorek.Tuple{int64(5), int64(6)}}}
+	style := verifPick("style", 4)
+	payA, payB := verifPickleList(itemsA, style), verifPickleList(itemsB, style)
+	verifPickleRegister(payA, itemsA, nil)
+	verifPickleRegister(payB, itemsB, nil)
+	streamA, streamB := verifFrame(uint32(len(payA)), payA), verifFrame(uint32(len(payB)), payB)
+	cutset := []int{1, 4, 5, 6, len(streamA) / 2, len(streamA) - 1}
+	cut := cutset[verifChoice("cut", len(cutset))]
+
+	d := &verifCapDisp{}
+	p := NewPickle(d)
+	ra, rb := &verifConnReader{ch: make(chan []byte)}, &verifConnReader{ch: make(chan []byte)}
+	var errA, errB error
+	doneA, doneB := make(chan bool, 1), make(chan bool, 1)
+	go func() { errA = p.Handle(ra); doneA <- true }()
+	go func() { errB = p.Handle(rb); doneB <- true }()
+	verifSettle()
+	ra.ch <- streamA[:cut]
+	verifSettle()
+	rb.ch <- streamB
+	verifSettle()
+	verifAssert(verifLinesEqual(d.copies, []string{nameB + " 4 3", nameB + " 6 5"}), "complete-frame-of-other-connection-processed-while-this-one-waits")
+	ra.ch <- streamA[cut:]
+	verifSettle()
+	close(ra.ch)
+	close(rb.ch)
+	<-doneA
+	<-doneB
+	verifAssert(verifLinesEqual(d.copies, []string{nameB + " 4 3", nameB + " 6 5", nameA + " 2 1"}), "valid-items-dispatched-as-name-value-timestamp")
+	verifAssert(errA == nil && errB == nil, "clean-end-of-stream-is-no-error")
+	verifCover("end")
+}
